@@ -28,9 +28,11 @@ RULE = ("handler level: a case is a list of rounds of the real TraceHandler (kin
         "evaluations = runs of execute_air of the history (each run with new data is followed by 4 re-delivery runs that are "
         "not counted); distinct non-trivial = distinct (script, schedule length) of histories whose script has >= 3 calls")
 PARTIAL = [
-    "C07_full (every step of every honest history, the variants b, a, c, nothing, over RunExec.run) is a Definition only: "
+    "C07_full (every step of every honest history, the variants b, a, c, nothing, over RunExec.run) is a Definition: "
     "it needs the approximation invariant of DESIGN appendix B (current data approximates the same full trace as the "
-    "previous data), which is not proved",
+    "previous data), which is proved ONLY for straight-line scripts on several peers (call with literal target/service/function and literal or plain-scalar arguments, ap of a literal or scalar, seq, xor, match, mismatch, fail, null, never; model/NetLin.v): C07_linear_redelivery -- in every honest history of SeqLocal's "
+    "network, after a peer merged a particle, delivering that particle, the merge result, its earlier data or nothing again gives "
+    "the same trace and last request id, no request and no next peer (run1 and run2); par, folds, streams, canon: not covered",
     "proved unconditionally, for every content-id type with a correct equality: idempotence and absorption of the call / "
     "canon / ap join (ap: exact law, the naive one is refuted on generation-less ap states that no interpreter produces), "
     "the state join = what the mergers return, and at the level of the TraceHandler: for every trace of call / canon / ap "
